@@ -586,6 +586,88 @@ func defaultArmExhaustive(c *Ctx, p *packages.Package, fd *ast.FuncDecl, call *a
 	if found {
 		return true, why
 	}
+	// the miss branch of a lookup in a read-only table literal that has an entry for every constant of its key type:
+	// `v, ok := T[k]; if !ok { panic }` is the default arm of the switch the table stands for
+	ast.Inspect(fd.Body, func(n ast.Node) bool {
+		is, ok := n.(*ast.IfStmt)
+		if !ok || found {
+			return !found
+		}
+		inBody := false
+		for _, st := range is.Body.List {
+			if es, ok := st.(*ast.ExprStmt); ok && es.X == ast.Expr(call) {
+				inBody = true
+			}
+		}
+		u, ok := unparen(is.Cond).(*ast.UnaryExpr)
+		if !inBody || !ok || u.Op != token.NOT {
+			return true
+		}
+		flag := identOf(u.X)
+		if flag == nil {
+			return true
+		}
+		fobj := info.Uses[flag]
+		var lookups []*ast.IndexExpr
+		nAssign := 0
+		collect := func(as *ast.AssignStmt) {
+			for i, l := range as.Lhs {
+				if lid := identOf(l); lid != nil && info.ObjectOf(lid) == fobj {
+					nAssign++
+					if i == 1 && len(as.Lhs) == 2 && len(as.Rhs) == 1 {
+						if ix, ok := unparen(as.Rhs[0]).(*ast.IndexExpr); ok {
+							lookups = append(lookups, ix)
+						}
+					}
+				}
+			}
+		}
+		if as, ok := is.Init.(*ast.AssignStmt); ok {
+			collect(as)
+		}
+		ast.Inspect(fd.Body, func(m ast.Node) bool {
+			if as, ok := m.(*ast.AssignStmt); ok && ast.Stmt(as) != is.Init {
+				collect(as)
+			}
+			return true
+		})
+		if nAssign != 1 || len(lookups) != 1 {
+			return true
+		}
+		tl := tableLiteral(c, info, lookups[0].X)
+		if tl == nil {
+			return true
+		}
+		tv, ok := info.Types[lookups[0].Index]
+		if !ok {
+			return true
+		}
+		nt, ok := tv.Type.(*types.Named)
+		if !ok || nt.Obj().Pkg() == nil || c.Pkgs[nt.Obj().Pkg().Path()] == nil {
+			return true
+		}
+		keyed := map[string]bool{}
+		for _, en := range tl.entries {
+			keyed[constName(tl.info, en.key)] = true
+		}
+		decl := c.Pkgs[nt.Obj().Pkg().Path()]
+		total, missing := 0, 0
+		for _, nm := range decl.Types.Scope().Names() {
+			if k, ok := decl.Types.Scope().Lookup(nm).(*types.Const); ok && types.Identical(k.Type(), nt) {
+				total++
+				if !keyed[nm] {
+					missing++
+				}
+			}
+		}
+		if total > 0 && missing == 0 {
+			found, why = true, fmt.Sprintf("miss branch of a lookup in the read-only table %s, which has an entry for all %d constants of %s", tl.v.Name(), total, namedTypeName(nt))
+		}
+		return !found
+	})
+	if found {
+		return true, why
+	}
 	ast.Inspect(fd.Body, func(n ast.Node) bool {
 		switch sw := n.(type) {
 		case *ast.SwitchStmt:
